@@ -208,7 +208,7 @@ def run_shard(spec, seed, col, tier):
         k = 0
         for code in range(256):
             for sub in (subs if code < 16 or tier == 'thorough' else [0, 1, 255]):
-                for data in ('', '0004', '00' * 21):
+                for data in ('', '0004', '00' * 21, 'ff', '03fffefd', '05c3a9c3a9c3', '80' * 130):
                     for state in ('OPENSENT', 'OPENCONFIRM', 'ESTABLISHED'):
                         k += 1
                         if k % spec['parts'] != spec['part'] or (code, sub) == (2, 1):
